@@ -29,7 +29,7 @@ def _table(relpath):
 
 
 def load(pid=None):
-    if not os.path.exists(PATH):
+    if not os.path.exists(PATH) or os.environ.get("VH_NO_KNOWN") == "1":       # VH_NO_KNOWN: tools list every signature (tools/harvest.py)
         return []
     with open(PATH, encoding="utf-8") as f:
         entries = json.load(f)["findings"]
